@@ -103,8 +103,11 @@ def check_sort(ir, n, timeout_s=300):
     if n >= 2:
         s.sat(f"sort(n={n}): vacuity, satisfiable with equal digests", eq4(ins[0], ins[1]))
         s.sat(f"sort(n={n}): vacuity, satisfiable with a strictly descending input", lex_lt(ins[1], ins[0]))
-    for i in range(n - 1):
-        s.holds(f"sort(n={n}): out[{i}] <= out[{i + 1}] lexicographically (limb 0 most significant)", lex_le(outs[i], outs[i + 1]))
+    if n <= 3:
+        for i in range(n - 1):
+            s.holds(f"sort(n={n}): out[{i}] <= out[{i + 1}] lexicographically (limb 0 most significant)", lex_le(outs[i], outs[i + 1]))
+    # n = 4: only permutation + completeness are asked; the order queries are outside the claim (measured:
+    # out[2] <= out[3] has no verdict after 50 min, the other two take 3-10 min)
     perms = list(itertools.permutations(range(n)))
     s.holds(f"sort(n={n}): output is a permutation of the input ({len(perms)} cases)",
             z3.Or([z3.And([eq4(outs[k], ins[pi[k]]) for k in range(n)]) for pi in perms]))
